@@ -151,6 +151,7 @@ def ref_eval_points(algo, u1, v1, a1, un, vn, an, prm):
 
 def run(ctx):
     ctx.attempt(step_commit_rule, ctx)
+    ctx.attempt(derived_parameters_rule, ctx)
     ctx.attempt(newton_loop_rule, ctx)
     # 'for all step sequences including switching algorithm or step size between steps': no memo of a scheme-dependent quantity survives a change of the scheme
     from ..shared import memo_rule as _memo_rule, cached_param_rule as _cached_param_rule
@@ -615,3 +616,36 @@ def newton_loop_rule(ctx):
             r.fail(f.qualname, f"newton:{label}", f.file, f.lineno, "_Solver_Solve_Newton_Raphson", f"{label}: {bad}")
         else:
             r.ok(f"{label}: {state['k']} iterations")
+
+
+def derived_parameters_rule(ctx):
+    """R5.12: the parameters a scheme runs with are the ones its documentation states.  For newmark / hht / midpoint the
+    setter stores the (beta, gamma, alpha) it is given; for hht_newmark the pair is derived from alpha and must be the
+    documented one, beta = 1/4 (1 + alpha)^2 and gamma = 1/2 + alpha (Doyen, Ern & Piperno 2011 with the sign of alpha
+    reversed: the pair for which that scheme is second-order accurate and unconditionally stable) -- a table frozen
+    from the AlgoType documentation.  The setter is interpreted with symbolic parameters."""
+    repo = ctx.repo
+    r = ctx.rule("R5.12", "stored scheme parameters: (beta, gamma, alpha) as given for newmark / hht / midpoint; hht_newmark: beta == 1/4 (1 + alpha)^2, gamma == 1/2 + alpha", min_instances=4)
+    want = {
+        "newmark": (beta, gamma, alpha),
+        "hht": (beta, gamma, alpha),
+        "midpoint": (beta, gamma, alpha),
+        "hht_newmark": ((alpha + 1) * (alpha + 1) * Q(1, 4), alpha + Q(1, 2), alpha),
+    }
+    for algo, (wb, wg, wa) in want.items():
+        I = Interp(repo)
+        I.call_hook = call_hook
+        obj, f = make_self(repo, algo, I)
+        r.instance(fn=f.qualname)
+        prm = obj.attrs.get("_Simu__hyperbolicParams")
+        if not isinstance(prm, tuple) or len(prm) != 4:
+            raise AnalysisError("R5.12: the hyperbolic parameters are no longer stored as (dt, beta, gamma, alpha)")
+        bad = None
+        for nm, got, w in (("dt", prm[0], dt), ("beta", prm[1], wb), ("gamma", prm[2], wg), ("alpha", prm[3], wa)):
+            if not is_zero(Poly.of(got) - Poly.of(w)):
+                bad = f"{nm} = {got!r}, documented {w!r}"
+                break
+        if bad:
+            r.fail(f.qualname, f"params:{algo}", f.file, f.lineno, "Solver_Set_Hyperbolic_Algorithm", f"AlgoType.{algo}: the scheme runs with {bad}: every table reads the stored tuple, the step stays self-consistent but is not the documented scheme")
+        else:
+            r.ok(f"{algo}: stored parameters as documented")
